@@ -187,7 +187,7 @@ impl ParseContext {
             .segments
             .borrow()
             .iter()
-            .filter(|x| !x.borrow().is_empty())
+            .filter(|x| !x.borrow().is_empty() || x.borrow().address != 0)
             .map(|x| x.borrow().clone())
             .collect();
         let macroses = self.macros.macroses.borrow().clone();
